@@ -265,7 +265,7 @@ func init() {
 
 func init() {
 	reg("C12", func(ctx *Ctx, emit func(Case)) { genCalls(ctx, emit) }, []string{"key objects are observed at the interfaces the application supplies (harness key objects log every call)"}, commonTrusted)
-	reg("C15", func(ctx *Ctx, emit func(Case)) { genHostile(ctx, emit) }, []string{"version validators admit only majors 1 and 2 (documented contract; necessity proved)", "memory allocation driven by length fields is go-codec's and the runtime's concern: measured as supporting evidence only"}, commonTrusted)
+	reg("C15", func(ctx *Ctx, emit func(Case)) { genHostile(ctx, emit); genHostileSender(ctx, emit) }, []string{"version validators admit only majors 1 and 2 (documented contract; necessity proved)", "memory allocation driven by length fields is go-codec's and the runtime's concern: measured as supporting evidence only"}, commonTrusted)
 	reg("C17", func(ctx *Ctx, emit func(Case)) { genGating(ctx, emit); genSpecGate(ctx, emit) }, nil, commonTrusted)
 	reg("C18", func(ctx *Ctx, emit func(Case)) { genFresh(ctx, emit) }, []string{"the randomness source itself is trusted (uniform, non-repeating)"}, commonTrusted)
 }
